@@ -100,13 +100,13 @@ def crop_harness(pw, ph):
 
 
 def split_harness(kind, w, h, size, parts, cstart=None):
-    """kind in: ref_h, typed_h, typed_h_mut, typed_w, typed_w_mut, cropped_h, cropped_w_mut"""
+    """kind in: ref_h, typed_h, typed_h_mut, typed_w, typed_w_mut, cropped_h, cropped_h_mut, cropped_w, cropped_w_mut"""
     by_h = "_h" in kind
     dim = h if by_h else w
     step, mod = size // parts, size % parts
-    body = []
-    # expected bands
-    if kind.startswith("cropped"):
+    cropped = kind.startswith("cropped")
+    mutable = kind.endswith("_mut")
+    if cropped:
         pw, ph = w + 3, h + 3
         setup = """        let mut buf = [U8::new(0); %d];
         let base = buf.as_ptr();
@@ -115,7 +115,7 @@ def split_harness(kind, w, h, size, parts, cstart=None):
         stride = pw
         mk_ref = "let parent = TypedImageRef::new(%d, %d, &buf).unwrap(); let img = TypedCroppedImage::from_ref(&parent, cl, ct, %d, %d).unwrap();" % (pw, ph, w, h)
         mk_mut = "let mut parent = TypedImage::from_pixels_slice(%d, %d, &mut buf).unwrap(); let mut img = TypedCroppedImageMut::from_ref(&mut parent, cl, ct, %d, %d).unwrap();" % (pw, ph, w, h)
-        off_l, off_t = "cl as usize", "ct as usize"
+        off_l, off_t = 1, 2
     else:
         setup = """        let mut buf = [U8::new(0); %d];
         let base = buf.as_ptr();
@@ -124,16 +124,53 @@ def split_harness(kind, w, h, size, parts, cstart=None):
         mk_ref = "let img = TypedImageRef::new(%d, %d, &buf).unwrap();" % (w, h) if kind.startswith("ref") else \
                  "let img = TypedImage::from_pixels_slice(%d, %d, &mut buf).unwrap();" % (w, h)
         mk_mut = "let mut img = TypedImage::from_pixels_slice(%d, %d, &mut buf).unwrap();" % (w, h)
-        off_l, off_t = "0", "0"
-    mutable = kind.endswith("_mut")
+        off_l, off_t = 0, 0
     call = "split_by_%s%s" % ("height" if by_h else "width", "_mut" if mutable else "")
+    valid = parts <= size <= dim and (cstart is None or cstart <= dim - size)
+    if cropped:
+        # straight-line checks (iterating the parts / rows generically makes CBMC exhaust memory on the nested impl-Trait views):
+        # every part k: its rows, one by one, by address and length, then the iterator must be exhausted
+        body = ["            assert!(parts.len() == %d);" % parts]
+        pos = cstart
+        for k in range(parts):
+            ln = step + (1 if k < mod else 0)
+            pw_, ph_ = (w, ln) if by_h else (ln, h)
+            body.append("            assert!(parts[%d].width() == %d && parts[%d].height() == %d);" % (k, pw_, k, ph_))
+            body.append("            {")
+            body.append("                let mut it = parts[%d].iter_rows%s(0);" % (k, "_mut" if mutable else ""))
+            for r in range(ph_):
+                row = off_t + (pos + r if by_h else r)
+                col = off_l + (0 if by_h else pos)
+                body.append("                let row = it.next().unwrap();")
+                body.append("                assert!(row.len() == %d && row.as_ptr() == unsafe { base.add(%d) });" % (pw_, row * stride + col))
+            body.append("                assert!(it.next().is_none());")
+            body.append("            }")
+            pos += ln
+        checks = "\n".join(body)
+        return """
+    #[kani::proof]
+    #[kani::unwind(%(u)d)]
+    fn g5b_%(kind)s_%(w)dx%(h)d_s%(size)d_p%(parts)d_at%(cs)d() {
+%(setup)s        let start: u32 = %(cs)d;
+        %(mk)s
+        let r = img.%(call)s(start, NonZeroU32::new(%(size)d).unwrap(), NonZeroU32::new(%(parts)d).unwrap());
+        assert!(r.is_some() == %(valid)s);
+        %(cover)s
+        if let Some(mut parts) = r {
+%(checks)s
+        }
+    }
+""" % dict(kind=kind, w=w, h=h, size=size, parts=parts, setup=setup, mk=mk_mut if mutable else mk_ref, call=call, cs=cstart,
+           valid="true" if valid else "false", cover="kani::cover!(r.is_some());" if valid else "", checks=checks if valid else "            let _ = &mut parts;",
+           u=max(w, h) + 3)
     chk = "check_rows_mut(p" if mutable else "check_rows(p"
     it = "parts.iter_mut()" if mutable else "parts.iter()"
     return """
     #[kani::proof]
     #[kani::unwind(%(u)d)]
-    fn g5b_%(kind)s_%(w)dx%(h)d_s%(size)d_p%(parts)d%(sfx)s() {
-%(setup)s        %(startdecl)s
+    fn g5b_%(kind)s_%(w)dx%(h)d_s%(size)d_p%(parts)d() {
+%(setup)s        let start: u32 = kani::any();
+        kani::assume(start <= %(dim)d);
         %(mk)s
         let r = img.%(call)s(start, NonZeroU32::new(%(size)d).unwrap(), NonZeroU32::new(%(parts)d).unwrap());
         let should = %(parts)d <= %(size)d && %(size)d <= %(dim)d && start <= %(dim)d - %(size)d;
@@ -153,12 +190,9 @@ def split_harness(kind, w, h, size, parts, cstart=None):
         }
     }
 """ % dict(kind=kind, w=w, h=h, size=size, parts=parts, setup=setup, dim=dim, mk=mk_mut if mutable else mk_ref, call=call,
-           it=it, step=step, mod=mod, u=max(w, h) + parts + 4,
-           cover="kani::cover!(r.is_some());" if (parts <= size <= dim and (cstart is None or cstart <= dim - size)) else "",
-           startdecl=("let start: u32 = kani::any();\n        kani::assume(start <= %d);" % dim) if cstart is None else ("let start: u32 = %d;" % cstart),
-           sfx="" if cstart is None else "_at%d" % cstart,
-           check=("%s, 0, base, %d, %s, %s + pos, %d, len);" % (chk, stride, off_l, off_t, w)) if by_h else
-                 ("%s, 0, base, %d, %s + pos, %s, len, %d);" % (chk, stride, off_l, off_t, h)))
+           it=it, step=step, mod=mod, u=max(w, h) + parts + 4, cover="kani::cover!(r.is_some());" if (parts <= size <= dim) else "",
+           check=("%s, 0, base, %d, %d, %d + pos, %d, len);" % (chk, stride, off_l, off_t, w)) if by_h else
+                 ("%s, 0, base, %d, %d + pos, %d, len, %d);" % (chk, stride, off_l, off_t, h)))
 
 
 ROWS = [(2, 2, 0), (2, 2, 3), (3, 2, 7), (1, 3, 2), (0, 2, 2), (2, 0, 3)]
